@@ -34,7 +34,8 @@ class HistSim(Sim):
     PROBES = ["root_was_root", "root_was_interior", "retained_crossed_again", "leaf_as_root", "leaf_as_root_again",
               "reuse_of_differentiated_node", "no_reset_between_calls", "reset_between_calls", "sweep_under_retain_ctx",
               "unreachable_tensor_with_grad", "fault_mid_sweep", "retry_after_fault", "rejected_backward", "repeat_same_root",
-              "zero_via_tensor", "zero_via_module", "zero_via_optimizer", "forward_fault", "no_grad_span", "nonfinite_upstream_gradient", "same_op_same_geometry_by_second_user"]
+              "zero_via_tensor", "zero_via_module", "zero_via_optimizer", "forward_fault", "no_grad_span", "nonfinite_upstream_gradient", "same_op_same_geometry_by_second_user",
+              "optimizer_step_between_backward_calls", "step_without_reset_then_more_backward", "module_parameter_added_after_use", "module_parameter_replaced_after_use"]
     RULE = ("one run = a seeded history of build/backward/retain/reset/fault events over shared leaves; distinct = hash of the event-kind "
             "sequence with, per backward, the root's role (fresh/former root/former interior/leaf) and whether retained nodes were crossed; "
             "non-trivial = at least two accepted backward calls")
@@ -101,7 +102,7 @@ class HistSim(Sim):
                 evs.append({"k": "setup_module", "params": mp})
             op = [i for i in leaves if rng.random() < 0.6]
             if op:
-                evs.append({"k": "setup_opt", "params": op})
+                evs.append({"k": "setup_opt", "params": op, "kind": rng.choice(["SGD", "SGDm", "SGDm", "Adam"])})
             if evs:
                 st.pending.extend(evs[1:])
                 return evs[0]
@@ -126,6 +127,14 @@ class HistSim(Sim):
             return self._gen_bad_backward(rng, st)
         if r < kn["p_reset"] + 0.16:
             return {"k": "gc"}
+        if r < kn["p_reset"] + 0.20 and st.opt is not None:
+            # an optimizer step between backward calls WITHOUT a reset (a step per micro-batch while gradients keep accumulating)
+            return {"k": "opt_step"}
+        if r < kn["p_reset"] + 0.23 and st.module is not None:
+            # the module tree changes after it has been used: a parameter is added inside a sub-module, or one is replaced
+            shape = rng.choice([(2,), (3,), tuple(kn["base"])])
+            return {"k": "module_add", "id": st.next_id, "data": enc(small_values(rng, shape, np.float64, -2, 2, avoid_zero=True)),
+                    "where": rng.choice(["root", "child", "grand"]), "replace": rng.random() < 0.4}
         if len(nodes) < 14:
             if nodes and rng.random() < 0.1:
                 ev = self._gen_twin(rng, st, nodes)
@@ -443,8 +452,89 @@ class HistSim(Sim):
         if not ids:
             st.skipped += 1
             return
-        st.opt = st.SG.optim.SGD([st.T[i] for i in ids], lr=0.1)
+        O = st.SG.optim
+        ps = [st.T[i] for i in ids]
+        kind = ev.get("kind", "SGD")
+        st.opt = O.SGD(ps, lr=0.1) if kind == "SGD" else O.SGD(ps, lr=0.1, momentum=0.9) if kind == "SGDm" else O.Adam(ps, lr=0.01)
         st.opt_ids = ids
+
+    def _ev_opt_step(self, st, ev):
+        if st.opt is None:
+            st.skipped += 1
+            return
+        ids = [i for i in st.opt_ids if i in st.T]
+        snap = self._snapshot(st, [i for i in st.T if st.meta[i]["kind"] == "leaf" and i not in ids])
+        before = {i: st.T[i].data.tobytes() for i in ids}
+        st.must("C04.step_raises", "Optimizer.step()", st.opt.step)
+        st.probes["optimizer_step_between_backward_calls"] += 1
+        if st.since_reset_calls:
+            st.probes["step_without_reset_then_more_backward"] += 1
+        self._check_unchanged(st, snap, "C04.unreachable", "optimizer step (a leaf that was not given to the optimizer)")
+        # a step changes parameter VALUES, never gradients: every leaf still holds the sum of the contributions since its last reset
+        self._check_leaves(st, "after Optimizer.step()")
+        # results computed from the old values are stale: the program builds new graphs from here on
+        moved = {i for i in ids if st.T[i].data.tobytes() != before[i]}
+        if moved:
+            stale = [j for j in st.T if st.meta[j]["kind"] == "node" and (self._reach_all(st, j) & moved)]
+            for j in stale:
+                del st.T[j]
+                del st.meta[j]
+                st.retained.discard(j)
+            st.last_fault_root = None
+            st.pending = [e for e in st.pending if e.get("k") != "backward"]
+
+    def _reach_all(self, st, root):
+        seen, stack = set(), [root]
+        while stack:
+            i = stack.pop()
+            if i in seen or i not in st.meta:
+                continue
+            seen.add(i)
+            stack.extend(st.meta[i]["inputs"])
+        return seen
+
+    def _ev_module_add(self, st, ev):
+        SG = st.SG
+        if st.module is None:
+            st.skipped += 1
+            return
+        # the tree has been used before: its parameters were listed (zero_grad)
+        st.must("C04.reset_raises", "Module.zero_grad()", st.module.zero_grad)
+        for i in [i for i in st.module_ids if st.meta[i]["rg"]]:
+            st.ledger[i] = None
+            st.abs[i] = 0.0
+            st.unknown.discard(i)
+            st.lowprec.discard(i)
+        t = SG.nn.Parameter(SG.Tensor(dec(ev["data"]), requires_grad=True))
+        i = ev["id"]
+        host = st.module
+        try:
+            if ev["where"] in ("child", "grand"):
+                host = host.child
+            if ev["where"] == "grand":
+                host = host.inner
+        except AttributeError:
+            host = st.module
+        names = [n for n, p in host._parameters.items()] if hasattr(host, "_parameters") else []
+        if ev.get("replace") and names:
+            # an existing registration is replaced: the old parameter is no longer part of the module
+            name = names[0]
+            old = getattr(host, name)
+            old_ids = [j for j in st.module_ids if st.T.get(j) is old]
+            setattr(host, name, t)
+            still = any(p is old for p in st.module.parameters())
+            if not still:
+                st.module_ids = [j for j in st.module_ids if j not in old_ids]
+            st.probes["module_parameter_replaced_after_use"] += 1
+        else:
+            setattr(host, f"added{i}", t)
+            st.probes["module_parameter_added_after_use"] += 1
+        st.T[i] = t
+        st.meta[i] = {"kind": "leaf", "rg": st.nograd_ctx is None, "inputs": [], "wrap": "param"}
+        st.ledger[i] = None
+        st.abs[i] = 0.0
+        st.module_ids = st.module_ids + [i]
+        st.next_id = max(st.next_id, i + 1)
 
     def _ev_op(self, st, ev):
         SG = st.SG
